@@ -331,8 +331,8 @@ def write_evidence(plan, out, tier, wall, seed, violations, known_hit):
         "explanation": plan.get("explanation", ""),
         "generator": out.generator_info,
         # generic keys as well, so that the file validates whichever way it is read
-        "evaluations": max(out.obligations + sum(b["checks"] for b in out.bounded), 1),
-        "distinct_nontrivial": max(out.obligations, 2),
+        "evaluations": out.obligations + sum(b["checks"] for b in out.bounded),
+        "distinct_nontrivial": out.obligations + sum(b["checks"] for b in out.bounded),
         "rule": "one case = one proof obligation (a verified Verus function/lemma, or one CBMC check of a Kani "
                 "harness); non-trivial = generated from a contract clause, body safety condition or harness assertion",
     }
